@@ -47,6 +47,14 @@ def firstBad : List String → String
   | [] => "ok"
   | v :: vs => if v == "ok" then firstBad vs else v
 
+/-- every entry of the receipted range first appeared during a commit op with exactly this (c,k,p) -/
+def contentBound (j : JState) (s : SObs) (c k p : Nat) : Nat → Nat → Bool
+  | _, 0 => true
+  | idx, n + 1 =>
+    (match s.entry idx with
+     | some e => j.bindingOf e.dig == some (c, k, p)
+     | none => false) && contentBound j s c k p (idx + 1) n
+
 def judge (j : JState) (op : Op) (cur : Obs) : String :=
   match op, cur.res with
   | .commit i _ c k p _, ["ok", _, rc, f, l, hw] =>
@@ -59,6 +67,7 @@ def judge (j : JState) (op : Op) (cur : Obs) : String :=
        else if f = 0 ∨ l < f ∨ l + 1 - f ≠ k then "viol:receipt-wrong-length"
        else if hw ≠ l then "viol:receipt-hw"
        else if cmdRange after cs ≠ some (f, l) then "viol:receipt-not-in-log"
+       else if !contentBound (j.update op cur) after c k p f (l + 1 - f) then "viol:receipt-for-other-content"
        else
          let own :=
            match cmdRange before cs with
